@@ -153,7 +153,7 @@ def call_remove(o, d, u, r, via):
             o.remove_knot(**kw)
 
 
-def pick_insertion(rng, o, d, prefer_knot=0.4, fine=False):
+def pick_insertion(rng, o, d, prefer_knot=0.4, fine=False, mindist=1e-3):
     """(u, s, tag): insertion parameter in direction d: a stored interior knot with multiplicity < p, or a value at least
     1e-3*range away from every knot. Returns None if nothing admissible."""
     p = G.degrees_of(o)[d]
@@ -167,6 +167,6 @@ def pick_insertion(rng, o, d, prefer_knot=0.4, fine=False):
         return u, cnt[u], 'on-knot-m%d' % cnt[u]
     for _ in range(50):
         u = rng.uniform(a, b) if not fine else a + (b - a) * rng.choice([rng.uniform(0, 1e-4), rng.uniform(1e-4, 1e-2)])
-        if a < u < b and all(abs(u - k) >= (1e-3 if not fine else 1e-7) * (b - a) for k in set(U)):
+        if a < u < b and all(abs(u - k) >= (mindist if not fine else 1e-7) * (b - a) for k in set(U)):
             return u, 0, 'in-span'
     return None
